@@ -2,12 +2,13 @@
 import concurrent.futures as cf
 import json
 import shutil
+import subprocess
 from gen_state import *  # noqa
 
 PROP_FILES = ["State/Properties_C13.v"]
 MANIFEST = dict(
     technique="Coq proof over a file-system model (names -> inode -> bytes, per-inode flock) of atomic_write_with_lock_timeout as a step list; a crash is any prefix of the protocol; tied to /repo by killing the real CLI at every hook point (exhaustive) and comparing file bytes, left-over temp files, hook traces and the next commands with the model",
-    text="Theorems C13_crash_safe, C13_change_point, C13_never_partial, C13_next_load_ok, C13_no_discard, C13_intact_load, C13_temp_is_private, C13_temp_content, C13_truncation_detected hold for every prior state (absent or any bytes), every new content, every physical size and every crash point k (unbounded; D14 repaired, no known class). Tie: the SGV_TRACE of a real save equals the model's point list (C13_points_are_protocol); every point x prior in {absent, valid, valid ~1 MB} x kind in {baseline via check --update-baseline, history via snapshot, cache via check / stats} is killed for real (plus a command that saves two files, killed in either save) and the target, the temp file and the next commands (check --baseline, stats history, snapshot, check, stats summary) agree with the model and with the property oracle.",
+    text="Theorems C13_crash_safe, C13_change_point, C13_never_partial, C13_next_load_ok, C13_no_discard, C13_intact_load, C13_temp_is_private, C13_temp_content, C13_truncation_detected, and for crash HISTORIES of a recycled pid (the stale temp file is part of the state; File::create truncates it) C13_save_after_any_crash_history, C13_crash_safe_after_history, C13_history_target_complete hold for every prior state (absent or any bytes), every new content, every physical size and every crash point k (unbounded; D14 repaired, no known class). Tie: the SGV_TRACE of a real save equals the model's point list (C13_points_are_protocol); every point x prior in {absent, valid, valid ~1 MB} x kind in {baseline via check --update-baseline, history via snapshot, cache via check / stats} is killed for real (plus a command that saves two files, killed in either save; plus kills followed by a shorter save of a process with the SAME pid, each invocation being pid 1 of its own PID namespace, with the stale temp file in place) and the target, the temp file and the next commands (check --baseline, stats history, snapshot, check, stats summary) agree with the model and with the property oracle.",
     note="Trusted: Coq kernel, extraction, kernel rename/flock semantics (atomic rebinding; per-inode reader-writer lock dropped at process death), std::process::abort as the crash (page cache survives: the Fsync step is checked as an ordering fact only, no power loss), JSON (de)serialisation abstracted to: complete documents parse, the empty file and proper prefixes do not (C13_truncation_detected).",
     ref="5 (C13)")
 
@@ -54,8 +55,7 @@ def make_template(cli, kind, prior):
         if prior in ("valid", "large"):
             run_cli(sb, cli, ["check", "."])
             if prior == "large":
-                st, doc, _ = read_state(target)
-                sb.write(CACHE, large_cache(doc))
+                sb.write(CACHE, large_cache(target))
     sb.write("c.rs", BIG + "fn f(){}\n")
     old_mtimes(sb)
     st, doc, size = read_state(target)
@@ -233,8 +233,14 @@ def run(ctx):
     mism += cm
     fails += cfl
     hist["combo cache+baseline"] = cn
-    ctx.cov["evaluations"] = len(cases) + cn
-    ctx.cov["distinct_nontrivial"] = len(really_killed) + ckilled
+    # ---- crash histories: a killed save leaves its temp file; a later save with the SAME pid must not be damaged by it
+    rm, rf, rkilled, rn, rnote = recycled_pid(ctx, cli, drv, points)
+    mism += rm
+    fails += rf
+    hist["recycled pid after a kill"] = rn
+    ctx.cov["recycled_pid"] = rnote
+    ctx.cov["evaluations"] = len(cases) + cn + rn
+    ctx.cov["distinct_nontrivial"] = len(really_killed) + ckilled + rkilled
     ctx.cov["exhaustive"] = True
     ctx.cov["traces_validated_against_impl"] = trace_ok + len(really_killed)
     ctx.cov["rule"] = ("exhaustive product: every hook point of the save protocol (%d) x prior state {absent, valid, valid about 1 MB} x kind "
@@ -263,6 +269,124 @@ def run(ctx):
                           no_input=True)
         elif not proofs_ok:
             ctx.violation({"kind": "proof-broken", "details": ctx.proof_broken}, no_input=True)
+
+
+def ns_available():
+    try:
+        p = subprocess.run(["unshare", "--pid", "--fork", "sh", "-c", "echo $$"], capture_output=True, text=True, timeout=20)
+        return p.returncode == 0 and p.stdout.strip() == "1"
+    except Exception:
+        return False
+
+
+def run_ns(sb, cli, args, now=NOW0, env=None):
+    """One invocation in a fresh PID namespace (as in a container job): the tool is pid 1 every time."""
+    return sb.run("unshare", ["--pid", "--fork", cli, "--color", "never"] + list(args), env=base_env(now, env), timeout=60)
+
+
+def recycled_pid(ctx, cli, drv, points):
+    """What a killed save leaves behind (the temp file .<name>.tmp.<pid>) must not damage a later
+    save by a process with the same pid. Every invocation runs as pid 1 of its own PID namespace.
+    (1) baseline: `check --update-baseline all` (two entries) killed at every point at which the
+        temp file exists, one violation is fixed, the same command runs to completion (one entry,
+        SHORTER document), `check --baseline` must load it;
+    (2) history / cache: the ~1 MB temp file a killed save left is still there when a short
+        document is saved by the same pid.
+    Model: target (crash_from (after_crashes (fs_init prior) [(long, size, k)]) short size 9) = Some short."""
+    mism, fails, killed, n = [], [], 0, 0
+    if not ns_available():
+        return mism, fails, 0, 0, {"skipped": "unshare --pid --fork is not usable here (needs root)"}
+    temp_points = [k for k in range(len(points)) if points[k] in ("aw:after_create_temp", "aw:after_write", "aw:after_flush", "aw:after_fsync", "aw:after_open_target", "aw:after_lock")]
+    save_b = ["check", ".", "--no-sloc-cache", "--baseline", BASELINE, "--update-baseline", "all"]
+    next_b = ["check", ".", "--no-sloc-cache", "--baseline", BASELINE]
+    jobs = []
+    for prior in ("absent", "valid"):
+        tsb, prior_doc, _ = make_template(cli, "baseline", prior)
+        try:
+            # reference: the second (shorter) save on a copy without any stale temp file
+            with copy_template(tsb) as sb:
+                sb.write("c.rs", SMALL)
+                old_mtimes(sb)
+                run_ns(sb, cli, save_b, now=NOW0 + 10)
+                st, ref_doc, ref_size = read_state(os.path.join(sb.proj, BASELINE))
+                ref_next = run_ns(sb, cli, next_b, now=NOW0 + 50)[0]
+            if st != "ok":
+                raise CheckBroken("reference of the shorter baseline save: " + st)
+
+            def one(k):
+                with copy_template(tsb) as sb:
+                    tr = os.path.join(sb.base, "trace")
+                    rc1, _, _ = run_ns(sb, cli, save_b, env={"SGV_CRASH_AT": points[k], "SGV_TRACE": tr})
+                    died = [x for v in read_trace(tr).values() for x in v if x.startswith("aw:")] == points[:k + 1]
+                    rc1 = "killed" if died and rc1 not in (0, 1, 2) else rc1
+                    stale = temp_files(sb.proj, BASELINE)
+                    st1, doc1, _ = read_state(os.path.join(sb.proj, BASELINE))
+                    sb.write("c.rs", SMALL)
+                    old_mtimes(sb)
+                    rc2, _, se2 = run_ns(sb, cli, save_b, now=NOW0 + 10)
+                    st2, doc2, size2 = read_state(os.path.join(sb.proj, BASELINE))
+                    left = temp_files(sb.proj, BASELINE)
+                    nrc, _, nse = run_ns(sb, cli, next_b, now=NOW0 + 50)
+                    return {"rc1": rc1, "stale": stale, "state1": classify("baseline", st1, doc1, prior_doc, None), "rc2": rc2, "state2": st2,
+                            "same": doc2 == ref_doc, "size2": size2, "left": left, "next_rc": nrc, "next_err": nse.strip()[:120], "err2": se2.strip()[:120]}
+
+            with cf.ThreadPoolExecutor(max_workers=6) as ex:
+                res = list(ex.map(one, temp_points))
+            sizes = {}
+            lines = ["hist\t%s\t1,2:%d:%d\t2\t%d\t9" % ("-" if prior == "absent" else "1", 100, k, ref_size) for k in temp_points]
+            for k, r, mo in zip(temp_points, res, model(drv, lines)):
+                n += 1
+                case = {"kind": "baseline", "prior": prior, "point": points[k], "k": k, "then": "same command with one violation fixed, same pid (PID namespace)"}
+                m = dict(x.split("=", 1) for x in mo.split("\t"))
+                if r["rc1"] == "killed" and r["stale"].get(1) is not None:
+                    killed += 1
+                else:
+                    mism.append({"relation": "the killed save (pid 1 of its namespace) leaves the temp file .<name>.tmp.1", "case": case, "impl": [r["rc1"], r["stale"]], "model": m["stale"]})
+                if m["target"] != "val:2" or m["temp"] != "absent":
+                    raise CheckBroken("model: a complete save after a crash history must install the new content: " + mo)
+                if r["state2"] != "ok" or not r["same"] or r["left"] or r["next_rc"] != ref_next:
+                    fails.append({"kind": "property-oracle", "what": "a save after a killed save of the same pid: baseline is %s (%d bytes, reference %d), equal to the reference: %s, temp files left: %s; next check --baseline exits %s (reference %s) %s"
+                                  % (r["state2"], r["size2"], ref_size, r["same"], r["left"], r["next_rc"], ref_next, r["next_err"]), "case": case,
+                                  "replay_cmd": "python3 tools/vp.py check C13 --replay <this file>"})
+        finally:
+            tsb.close()
+    # history and cache: the stale temp file of a killed ~1 MB save is present when a short document is saved
+    for kind in ("history", "cache"):
+        big, _, _ = make_template(cli, kind, "large")
+        small, _, _ = make_template(cli, kind, "absent")
+        try:
+            rel = KIND_FILE[kind]
+            with copy_template(small) as sb:
+                run_ns(sb, cli, save_cmd(kind, "absent", "check"), now=NOW0 + 10)
+                st, ref_doc, ref_size = read_state(os.path.join(sb.proj, rel))
+            for k in [x for x in temp_points if points[x] in ("aw:after_flush", "aw:after_lock")]:
+                n += 1
+                case = {"kind": kind, "prior": "large, then absent", "point": points[k], "k": k, "then": "short save by the same pid with the stale ~1 MB temp file present"}
+                with copy_template(big) as sbig, copy_template(small) as sb:
+                    tr = os.path.join(sbig.base, "trace")
+                    rc1, _, _ = run_ns(sbig, cli, save_cmd(kind, "large", "check"), env={"SGV_CRASH_AT": points[k], "SGV_TRACE": tr})
+                    if [x for v in read_trace(tr).values() for x in v if x.startswith("aw:")] == points[:k + 1] and rc1 not in (0, 1, 2):
+                        rc1 = "killed"
+                    d = os.path.dirname(os.path.join(sbig.proj, rel))
+                    stale = temp_files(d, os.path.basename(rel))
+                    if rc1 != "killed" or stale.get(1) is None:
+                        mism.append({"relation": "the killed save (pid 1 of its namespace) leaves the temp file .<name>.tmp.1", "case": case, "impl": [rc1, stale]})
+                        continue
+                    killed += 1
+                    tname = "." + os.path.basename(rel) + ".tmp.1"
+                    os.makedirs(os.path.dirname(os.path.join(sb.proj, rel)), exist_ok=True)
+                    shutil.copy(os.path.join(d, tname), os.path.join(os.path.dirname(os.path.join(sb.proj, rel)), tname))
+                    rc2, _, se2 = run_ns(sb, cli, save_cmd(kind, "absent", "check"), now=NOW0 + 10)
+                    st2, doc2, size2 = read_state(os.path.join(sb.proj, rel))
+                    left = temp_files(os.path.dirname(os.path.join(sb.proj, rel)), os.path.basename(rel))
+                    nxt, fst, fent = run_next(sb, cli, kind)
+                    if st2 != "ok" or doc2 != ref_doc or left or fst != "ok":
+                        fails.append({"kind": "property-oracle", "what": "a short %s save with a stale %d-byte temp file of the same pid: file is %s (%d bytes, reference %d), temp left %s, after the next commands %s"
+                                      % (kind, stale[1], st2, size2, ref_size, left, fst), "case": case})
+        finally:
+            big.close()
+            small.close()
+    return mism, fails, killed, n, {"cases": n, "killed_as_pid_1": killed, "how": "unshare --pid --fork per invocation"}
 
 
 COMBO_CMD = ["check", ".", "--baseline", BASELINE, "--update-baseline", "all"]
@@ -380,6 +504,12 @@ def replay(ctx, path):
     c = j.get("case") or j.get("first_mismatch", {}).get("case")
     if not isinstance(c, dict):
         print("replay file names no single case:", json.dumps(j)[:400])
+        return 0
+    if "then" in c or c.get("kind") == "cache+baseline":
+        print("case :", c)
+        f = (recycled_pid(ctx, cli, drv, points) if "then" in c else combo(ctx, cli, drv, points))
+        print("mismatches:", json.dumps(f[0])[:1500])
+        print("oracle    :", json.dumps(f[1])[:3000])
         return 0
     kind, prior, via, k = c["kind"], c["prior"], c.get("via", "check"), c["k"]
     tsb, prior_doc, _ = make_template(cli, kind, prior)
